@@ -1070,3 +1070,93 @@ theorem atomic_is_small_step (caps : Nat → Nat) (calls : List (Nat × Op)) :
   exact ⟨sched, h1, fun t => by simpa [init] using (h3 t).2.2⟩
 
 end Srtla.Hub
+
+/-! ## Appended (round 2): temporal form of nothing-after-unsubscribe -/
+namespace Srtla.Hub
+
+/-- The enqueue history of channel `c` restricted to subscription id `k`. -/
+def sentOf (s : Sys) (c k : Nat) : List Msg := (s.hub.chans c).sent.filter (fun m => m.sub = k)
+
+/-- One step enqueues only messages tagged with the id of a table entry: for an id without a table
+entry every channel's enqueue history restricted to that id is unchanged. -/
+theorem step_sentOf {s s' : Sys} {t : Nat} (h : step s t = some s') (k : Nat)
+    (hk : ∀ e ∈ s.hub.entries, e.id ≠ k) (c : Nat) : sentOf s' c k = sentOf s c k := by
+  unfold sentOf
+  step_cases h
+  all_goals (simp only [Sys.setPc, Sys.finish, Sys.setHub, Sys.setLock, sendTo_chans])
+  all_goals (try rfl)
+  all_goals (try (simp only [upd_apply]; split <;> simp_all [closeChan]; done))
+  · rename_i e he
+    split
+    · simp only [upd_apply]
+      split
+      · rename_i hc
+        subst hc
+        have hne : e.id ≠ k := hk e (List.mem_of_getElem? he)
+        simp [List.filter_append, mkMsg, hne]
+      · rfl
+    · rfl
+
+theorem dead_exec {s : Sys} {k : Nat} (hd : Dead s k) (sched : List Nat) : Dead (exec s sched) k :=
+  inv_exec (P := fun s => Dead s k) (fun _ _ _ hd h => dead_step hd h) sched s hd
+
+/-- **Frozen.**  Once `k` is dead (not in the table, not pending, already issued), then along EVERY
+continuation — any schedule, any number of further publishes, by any tasks — no channel's enqueue
+history gains a message tagged `k`. -/
+theorem sentOf_frozen {s : Sys} {k : Nat} (hd : Dead s k) (sched : List Nat) (c : Nat) :
+    sentOf (exec s sched) c k = sentOf s c k := by
+  induction sched generalizing s with
+  | nil => rfl
+  | cons t l ih =>
+    rw [exec_cons]
+    unfold stepOrStay
+    cases hst : step s t with
+    | none => simpa using ih hd
+    | some s' =>
+      simp only [Option.getD_some]
+      rw [ih (dead_step hd hst), step_sentOf hst k hd.2 c]
+
+/-- While the mutex is free nobody is inside a publish loop (or any other critical section). -/
+theorem no_section_when_free {s : Sys} (hl : LockInv s) (hfree : s.lock = none) (t : Nat) :
+    (s.tasks t).pc.holds = false := by
+  cases hb : (s.tasks t).pc.holds
+  · rfl
+  · have := (hl t).mp hb; rw [hfree] at this; cases this
+
+theorem removeId_length_eq {es : List Entry} {k : Nat} (h : ∀ e ∈ es, e.id ≠ k) :
+    (removeId es k).length = es.length := by
+  unfold removeId
+  rw [List.filter_eq_self.mpr]
+  intro e he
+  simpa using h e he
+
+/-- What the `retain` step of `unsubscribe(k)` does: `k` is out of the table afterwards; the flag is
+`true` exactly when `k` was in it. -/
+theorem unsub_retain {s : Sys} {t k : Nat} (hpc : (s.tasks t).pc = .unsubLocked k) :
+    ∃ s' r, step s t = some s' ∧ (s'.tasks t).pc = .unsubDone k r ∧
+      (r = true ↔ ∃ e ∈ s.hub.entries, e.id = k) ∧
+      s'.hub.entries = removeId s.hub.entries k ∧ (∀ e ∈ s'.hub.entries, e.id ≠ k) ∧
+      s'.hub.nextId = s.hub.nextId ∧ s'.hub.chans = s.hub.chans ∧ s'.lock = s.lock ∧
+      ∀ t', t' ≠ t → s'.tasks t' = s.tasks t' := by
+  refine ⟨((s.setPc t (.unsubDone k ((removeId s.hub.entries k).length != s.hub.entries.length))).setHub
+      { s.hub with entries := removeId s.hub.entries k }),
+    ((removeId s.hub.entries k).length != s.hub.entries.length),
+    by unfold step; rw [hpc], by simp [Sys.setPc, Sys.setHub], ?_, by simp [Sys.setPc, Sys.setHub],
+    ?_, by simp [Sys.setPc, Sys.setHub], by simp [Sys.setPc, Sys.setHub], by simp [Sys.setPc, Sys.setHub],
+    fun t' ht' => by simp [Sys.setPc, Sys.setHub, upd_apply, ht']⟩
+  · constructor
+    · intro h
+      exact removeId_length_ne (by simpa using h)
+    · rintro ⟨e, he, hek⟩
+      have : (removeId s.hub.entries k).length ≠ s.hub.entries.length := by
+        intro heq
+        have hsub := removeId_sublist s.hub.entries k
+        have := hsub.eq_of_length heq
+        have hmem : e ∈ removeId s.hub.entries k := by rw [this]; exact he
+        exact (mem_removeId.mp hmem).2 hek
+      simpa using this
+  · intro e he
+    simp only [Sys.setPc, Sys.setHub] at he
+    exact (mem_removeId.mp he).2
+
+end Srtla.Hub
